@@ -730,3 +730,44 @@ Definition ex_world_double : fstate :=
 
 Definition outcomes (s : fstate) (ops : list op) : list outcome :=
   map (fun t => snd (snd t)) (gtrace (s, ex_ghost0) ops).
+
+(* ---------------------------------------------------------------- account level (after the repair 8a326f28) *)
+
+(* InitProvider registers a provider only under the canonical (lower-case) spelling of its address *)
+Definition providers_canonical (s : fstate) : Prop := forall p, In p (akeys (providers s)) -> snd p = false.
+
+Lemma aget_some_in_keys (l : list (str * ipinfo)) k v : aget str_eqb l k = Some v -> In k (akeys l).
+Proof.
+  induction l as [|[k' v'] r IH]; cbn; [discriminate|].
+  destruct (str_eqb k k') eqn:E.
+  - intros _. left. symmetry. apply str_eqb_spec. exact E.
+  - intros H. right. exact (IH H).
+Qed.
+
+Lemma named_ok_other_account s prover p :
+  providers_canonical s -> named_ok s prover p -> same_account p prover = false.
+Proof.
+  intros HC (Hne & _ & d & t & ipc & Hp & Hc & _).
+  pose proof (HC p (aget_some_in_keys _ _ _ Hp)) as Sp.
+  pose proof (HC prover (aget_some_in_keys _ _ _ Hc)) as Sc.
+  unfold same_account. destruct (N.eqb_spec (fst p) (fst prover)) as [E|]; [|reflexivity].
+  exfalso. apply Hne. destruct p, prover; cbn in *; subst; reflexivity.
+Qed.
+
+Lemma attestation_form_other_accounts s c fk perm s' chosen :
+  NoDup (akeys (providers s)) -> providers_canonical s ->
+  step s (ReqAttest c fk perm) = (s', OCreated chosen) ->
+  forall p, In p chosen -> same_account p c = false.
+Proof.
+  intros ND HC H p Hin. destruct (request_attestation_names s c fk perm s' chosen ND H) as (_ & _ & _ & HN).
+  exact (named_ok_other_account s c p HC (HN p Hin)).
+Qed.
+
+Lemma report_form_other_accounts s c p0 fk perm s' chosen :
+  NoDup (akeys (providers s)) -> providers_canonical s ->
+  step s (ReqReport c p0 fk perm) = (s', OCreated chosen) ->
+  forall p, In p chosen -> same_account p p0 = false.
+Proof.
+  intros ND HC H p Hin. destruct (request_report_names_step s c p0 fk perm s' chosen ND H) as (_ & _ & _ & HN).
+  exact (named_ok_other_account s p0 p HC (HN p Hin)).
+Qed.
